@@ -122,7 +122,7 @@ class ClassPropModel:
         key = self.key(k)
         if key in self.cache:
             return ("ok", self.cache[key])
-        v = f"{k}:{self.base}"
+        v = None if self.base == 3 else f"{k}:{self.base}"
         if self.cfg["cache"]:
             self.cache[key] = v
         return ("ok", v)
@@ -148,6 +148,8 @@ def build_classprop_hierarchy(cfg, faults):
 
     def getter(cls):
         faults.hit("cgetter")
+        if state["base"] == 3:
+            return None  # a legitimate value: must be cached / returned like any other
         return f"{cls.__name__}:{state['base']}"
 
     cp = classproperty(getter, cache=cfg["cache"], cache_per_subclass=cfg["per_subclass"], overridable=cfg["overridable"])
@@ -193,7 +195,7 @@ class C12(Check):
             obj = cls()
             model = PropModel(cfg)
             for idx in range(n_ops):
-                op = ops_in[idx] if ctx.replay else self.gen_prop_op(src)
+                op = ops_in[idx] if ctx.replay else self.gen_prop_op(src, cfg)
                 ctx.case["ops"].append(op)
                 self.step_prop(ctx, cfg, faults, obj, model, op, idx)
         else:
@@ -207,11 +209,12 @@ class C12(Check):
 
     # -- spec_property ------------------------------------------------------------------------------
     @staticmethod
-    def gen_prop_op(src):
+    def gen_prop_op(src, cfg=None):
         k = src.weighted([("read", 5), ("assign", 3), ("delete", 2), ("base", 2)])
         op = {"k": k}
         if k == "assign":
-            op["v"] = src.choice([7, -3, 0, "bad", 42])
+            # None is a legitimate override value (not for a custom setter, whose target is the numeric base)
+            op["v"] = src.choice([7, -3, 0, "bad", 42] + ([] if (cfg or {}).get("setter", True) else [None]))
         elif k == "base":
             op["v"] = src.choice([1, 2, 5])
         op["fault"] = src.chance(0.15)
@@ -292,7 +295,7 @@ class C12(Check):
         k = src.weighted([("read_cls", 4), ("read_inst", 3), ("assign_inst", 2), ("delete_inst", 2), ("base", 1.5)])
         op = {"k": k, "c": src.choice(["A", "B", "C"])}
         if k == "assign_inst":
-            op["v"] = src.choice(["ov1", "ov2"])
+            op["v"] = src.choice(["ov1", "ov2", None])
         elif k == "base":
             op["v"] = src.choice([1, 2, 3])
         return op
